@@ -104,6 +104,7 @@ def octDigit (n : Nat) : Char := Char.ofNat ('0'.toNat + n % 8)
 def escChar (c : Char) : Text :=
   if c = '\\' then ['\\', '\\']
   else if c = '"' then ['\\', '"']
+  else if c = '\'' then ['\\', '\'']
   else if c = '\n' then ['\\', 'n']
   else if c = '\r' then ['\\', 'r']
   else if c = '\t' then ['\\', 't']
